@@ -1,14 +1,58 @@
-(** C02 - placeholder statements (grow): consumption and event shape of the simplest encodings. *)
+(** C02 - every supported encoding reproduces the server framebuffer exactly: theorems for Raw and
+    CopyRect rectangles and for the framing of whole updates (the other encodings are decided by the
+    independent-encoder campaign; see DESIGN.md 9.2). *)
 From Coq Require Import ZArith List Bool.
-From VD Require Import Base.Bytes Model.Engine Model.Rfb.
+From RecordUpdate Require Import RecordSet.
+Import RecordSetNotations.
+From VD Require Import Base.Bytes Model.Engine Model.Rfb Proofs.DecodeP.
 Import ListNotations.
 Open Scope Z_scope.
 
-(** A Raw rectangle hands exactly its w*h*bypp bytes to updateRectangle at the position named,
-    and continues with the next rectangle / message (library client: unless the data is too short
-    for the image mode, which cannot happen for the formats it selects). *)
 Theorem C02_raw_step : forall s n x y w h b,
   upd_raises s w h (len b) = false ->
   step s (PRaw n x y w h) b = prepend [EUpd x y w h b] (do_connection s).
 Proof. intros. cbn [step]. unfold upd. rewrite H. reflexivity. Qed.
 Print Assumptions C02_raw_step.
+
+(** Raw (RFC 6143 7.7.1), continuation form: header + w*h pixels are consumed exactly, exactly those
+    bytes reach updateRectangle at (x, y), and the client goes on with the tail as the next
+    rectangle / message - for every position, size, pixel content and every tail. *)
+Theorem C02_raw_roundtrip : forall s x y w h px tail s2 p2 es2 es r n,
+  u16ok x -> u16ok y -> u16ok w -> u16ok h -> rects s <> 0 ->
+  let s1 := enter_rect s x y w h in
+  len px = w * h * bypp s1 -> upd_raises s1 w h (len px) = false ->
+  do_connection s1 = Ok s2 (Some p2) es2 ->
+  Drain s2 p2 tail es r n ->
+  Drain s PRect (rect_hdr x y w h [0; 0; 0; 0] ++ px ++ tail) ([EUpd x y w h px] ++ es2 ++ es) r (S (S n)).
+Proof. exact raw_roundtrip. Qed.
+Print Assumptions C02_raw_roundtrip.
+
+(** CopyRect (7.7.2): exactly one copyRectangle(srcx, srcy, x, y, w, h). *)
+Theorem C02_copyrect_roundtrip : forall s x y w h sx sy tail s2 p2 es2 es r n,
+  u16ok x -> u16ok y -> u16ok w -> u16ok h -> u16ok sx -> u16ok sy -> rects s <> 0 ->
+  let s1 := enter_rect s x y w h in
+  do_connection s1 = Ok s2 (Some p2) es2 ->
+  Drain s2 p2 tail es r n ->
+  Drain s PRect (rect_hdr x y w h [0; 0; 0; 1] ++ (be_enc 2 sx ++ be_enc 2 sy) ++ tail)
+        ([ECopy sx sy x y w h] ++ es2 ++ es) r (S (S n)).
+Proof. exact copyrect_roundtrip. Qed.
+Print Assumptions C02_copyrect_roundtrip.
+
+(** A whole FramebufferUpdate of any number (1..65535) of such rectangles: beginUpdate, every
+    rectangle's callback once and in order, exactly one commit listing the rectangles, and then the
+    tail is read as the next message - i.e. exactly the update's bytes were consumed. *)
+Theorem C02_update_framing : forall s pad rs tail es r n,
+  rs <> [] -> len rs < 65536 -> Forall (rect_ok s) rs ->
+  let sf := after_rects (start_update s (len rs)) rs in
+  let '(sc, ces) := commit sf in
+  Drain sc PConnection tail es r n ->
+  Drain s PConnection ([0; pad] ++ be_enc 2 (len rs) ++ concat (map wire_rect rs) ++ tail)
+        ([EBegin] ++ map rect_event rs ++ ces ++ es) r (2 + 2 * List.length rs + n).
+Proof. exact update_roundtrip. Qed.
+Print Assumptions C02_update_framing.
+
+(** ... so a Bell that follows is seen exactly once, after the commit. *)
+Theorem C02_bell_after : forall s tail es r n,
+  Drain s PConnection tail es r n -> Drain s PConnection ([2] ++ tail) ([EBell] ++ es) r (S n).
+Proof. exact bell_step. Qed.
+Print Assumptions C02_bell_after.
